@@ -7,11 +7,15 @@ slot_testv_and_readv_and_writev, add_lease) with a settable clock, carrying 0..5
 times lie around the policy's threshold.  `time` inside allmydata.storage.expirer / lease / crawler
 is substituted from here (module attributes) by a fixed clock; crawl cycles are driven by calling
 start_slice() directly, in one slice, in several slices (the crawler's clock advances per call) and
-with a restart (a new StorageServer on the same directory) between slices.
+with a restart (a new StorageServer on the same directory) between slices.  Configuration handling and
+crawls are also run with the process's local time zone set to several non-UTC zones (TZ + time.tzset(),
+restored afterwards): the cutoff handed to the lease checker must be midnight UTC whatever the zone.
 Model: coq/Model/Expirer.v (process_share, policy_of_config) evaluated by vm_compute.
 Oracle: the property's rule evaluated on the renewal times the leases were created with."""
+import calendar
 import os
 import shutil
+import time
 
 from core import env
 from core import term as T
@@ -22,7 +26,10 @@ RULE = ("cases: one case = one share (immutable or mutable container, schema v1 
         "threshold-40d, -1d, -1s, exactly the threshold, +1s, +1d, +20d; some with a repeated cancel secret) under one of the "
         "72 policy configurations (expire.enabled true/false/absent x {age, age with override 7days / 2mo / 60 days, cutoff-date x2} x "
         "immutable/mutable filters, written as tahoe.cfg text), crawled in one slice, in several slices, or with a restart "
-        "in mid-cycle, plus one case per configuration text for the option handling (valid and refused ones); distinct = "
+        "in mid-cycle, with the process time zone left alone or set to EST5 / CET-1 / PST8 / NZST-12 (every cutoff-date "
+        "configuration is crawled under a non-UTC zone in some round), plus one case per (configuration text, time zone in "
+        "{unchanged, EST5, JST-9}) for the option handling (valid and refused ones), judged against the documented meaning "
+        "of the values (durations in days, dates as midnight UTC) written down in the driver; distinct = "
         "distinct (configuration, container type, schema, lease offsets, secret pattern, crawl style); non-trivial = a share "
         "with at least one lease under an enabled policy whose type is enabled (the deletion decision depends on the leases)")
 META = {
@@ -54,6 +61,53 @@ DAY = 86400
 D31 = 31 * DAY
 NOW = 1700000000
 OFFSETS = [-40 * DAY, -DAY, -1, 0, 1, DAY, 20 * DAY]
+# What the documentation says the option values mean, written down here independently of
+# util/time_format.py: durations in days (a month is 31 days, a year 365), dates as midnight UTC at
+# the beginning of the given day (docs/garbage-collection.rst).
+DURATIONS = {"7days": 7 * DAY, "2mo": 62 * DAY, "60 days": 60 * DAY, "1 year": 365 * DAY}
+DATES = {d: calendar.timegm(tuple(int(x) for x in d.split("-")) + (0, 0, 0)) for d in ("2023-11-10", "2023-09-01")}
+# POSIX TZ strings (no zoneinfo needed).  The node's local time zone must not matter.
+ZONES = [None, "EST5", "JST-9"]
+CRAWL_ZONES = ["EST5", "CET-1", None, "PST8", "NZST-12"]
+
+
+class Zone(object):
+    """Run a block with the process's local time zone set to a POSIX TZ string (None: leave it)."""
+
+    def __init__(self, tz):
+        self.tz = tz
+
+    def __enter__(self):
+        if self.tz is not None:
+            self.saved = os.environ.get("TZ")
+            os.environ["TZ"] = self.tz
+            time.tzset()
+        return self
+
+    def __exit__(self, *a):
+        if self.tz is not None:
+            if self.saved is None:
+                os.environ.pop("TZ", None)
+            else:
+                os.environ["TZ"] = self.saved
+            time.tzset()
+
+
+def expected_policy(c):
+    """The policy the documentation promises for a configuration (None: the node refuses to start);
+    same shape as observed_policy."""
+    enabled = bool(c["enabled"])
+    mode = c["mode"]
+    if mode is None:
+        if enabled:
+            return None
+        mode = "age"
+    if mode not in ("age", "cutoff-date"):
+        return None
+    if mode == "cutoff-date" and c["cutoff"] is None:
+        return None
+    types = tuple(t for t, on in (("immutable", c["immutable"]), ("mutable", c["mutable"])) if on is None or on)
+    return (enabled, mode, c["override"] if mode == "age" else None, c["cutoff"] if mode == "cutoff-date" else None, types)
 
 
 class FixedTime(object):
@@ -98,7 +152,6 @@ class Patched(object):
 # ---- configurations ------------------------------------------------------------
 def config_texts():
     """(text of the expire.* lines, model config term parts, parsed override, parsed cutoff)."""
-    from allmydata.util import time_format
     modes = [("age", None, None), ("age", "7days", None), ("age", "2mo", None), ("age", "60 days", None),
              ("cutoff-date", None, "2023-11-10"), ("cutoff-date", None, "2023-09-01")]
     out = []
@@ -117,13 +170,12 @@ def config_texts():
                     lines.append("expire.immutable = %s" % ("true" if imm else "false"))
                     lines.append("expire.mutable = %s" % ("true" if mut else "false"))
                 out.append({"text": "\n".join(lines) + "\n", "enabled": enabled,
-                            "mode": mode, "override": time_format.parse_duration(ovr) if ovr else None,
-                            "cutoff": time_format.parse_date(cut) if cut else None, "immutable": imm, "mutable": mut})
+                            "mode": mode, "override": DURATIONS[ovr] if ovr else None,
+                            "cutoff": DATES[cut] if cut else None, "immutable": imm, "mutable": mut})
     return out
 
 
 def odd_config_texts():
-    from allmydata.util import time_format
     return [
         {"text": "", "enabled": None, "mode": None, "override": None, "cutoff": None, "immutable": None, "mutable": None},
         {"text": "expire.enabled = true\n", "enabled": True, "mode": None, "override": None, "cutoff": None, "immutable": None, "mutable": None},
@@ -131,10 +183,10 @@ def odd_config_texts():
         {"text": "expire.mode = cutoff-date\n", "enabled": None, "mode": "cutoff-date", "override": None, "cutoff": None, "immutable": None, "mutable": None},
         {"text": "expire.enabled = false\nexpire.mode = weekly\n", "enabled": False, "mode": "weekly", "override": None, "cutoff": None, "immutable": None, "mutable": None},
         {"text": "expire.enabled = true\nexpire.mode = cutoff-date\nexpire.cutoff_date = 2023-11-10\nexpire.override_lease_duration = 7days\n",
-         "enabled": True, "mode": "cutoff-date", "override": time_format.parse_duration("7days"), "cutoff": time_format.parse_date("2023-11-10"),
+         "enabled": True, "mode": "cutoff-date", "override": DURATIONS["7days"], "cutoff": DATES["2023-11-10"],
          "immutable": None, "mutable": None},
         {"text": "expire.override_lease_duration = 1 year\nexpire.mutable = false\n", "enabled": None, "mode": None,
-         "override": time_format.parse_duration("1 year"), "cutoff": None, "immutable": None, "mutable": False},
+         "override": DURATIONS["1 year"], "cutoff": None, "immutable": None, "mutable": False},
     ]
 
 
@@ -371,129 +423,159 @@ def run(ctx):
     cfg_terms, cfg_info = [], []
     good = []
     for ci, c in enumerate(allconf):
-        factory = ServerFactory(os.path.join(base, "cfg%d" % ci), c["text"])
-        try:
-            ss = factory.make(Clock())
-            pol = observed_policy(ss)
-        except Exception as e:
-            pol = None
-            err = type(e).__name__
-        ctx.case(("config", c["text"]), kind="config-" + ("accepted" if pol else "refused"))
-        cfg_terms.append("opt_policy_eqb (policy_of_config %s) %s" % (t_config(c), T.opt(None if pol is None else t_policy(pol))))
-        cfg_info.append((c["text"], pol))
-        # the property's reading of the options
-        if pol is not None:
-            want_enabled = bool(c["enabled"])
-            if pol[0] != want_enabled:
-                ctx.oracle_fail("gc-config-enabled-flag", "expire.enabled=%r gives a lease checker with expiration_enabled=%r" % (c["enabled"], pol[0]),
-                                case={"config": c["text"]}, expected=want_enabled, observed=pol[0])
-            if c in configs:
-                good.append((c, pol))
-        shutil.rmtree(factory.basedir, ignore_errors=True)
+        want = expected_policy(c)
+        if c in configs and want is not None:
+            good.append((c, want))
+        for tz in ZONES:
+            factory = ServerFactory(os.path.join(base, "cfg%d" % ci), c["text"])
+            with Zone(tz):
+                try:
+                    ss = factory.make(Clock())
+                    pol = observed_policy(ss)
+                except Exception:
+                    pol = None
+            ctx.case(("config", c["text"], tz), kind="config-" + ("accepted" if pol else "refused"))
+            cfg_terms.append("opt_policy_eqb (policy_of_config %s) %s" % (t_config(c), T.opt(None if pol is None else t_policy(pol))))
+            cfg_info.append((c["text"], tz, pol))
+            # the documented reading of the options, whatever the node's local time zone
+            cfgcase = {"config": c["text"], "tz": tz}
+            if (pol is None) != (want is None):
+                ctx.oracle_fail("gc-config-accepted-or-refused-wrongly", "configuration is %s, documented: %s" % (
+                    "refused" if pol is None else "accepted", "refused" if want is None else "accepted"), case=cfgcase,
+                    expected=want, observed=pol)
+            elif pol is not None:
+                if pol[0] != want[0]:
+                    ctx.oracle_fail("gc-config-enabled-flag", "expire.enabled=%r gives a lease checker with expiration_enabled=%r" % (c["enabled"], pol[0]),
+                                    case=cfgcase, expected=want[0], observed=pol[0])
+                if pol[1] == "cutoff-date" and pol[3] != want[3]:
+                    ctx.oracle_fail("gc-cutoff-date-not-utc-midnight",
+                                    "expire.cutoff_date under TZ=%s: the lease checker uses cutoff %r, midnight UTC of that day is %r" % (tz, pol[3], want[3]),
+                                    case=cfgcase, expected=want[3], observed=pol[3])
+                if pol[1] == "age" and pol[2] != want[2]:
+                    ctx.oracle_fail("gc-override-duration-differs", "expire.override_lease_duration gives %r seconds, documented %r" % (pol[2], want[2]),
+                                    case=cfgcase, expected=want[2], observed=pol[2])
+                if pol[1] != want[1] or set(pol[4]) != set(want[4]):
+                    ctx.oracle_fail("gc-config-mode-or-sharetypes", "mode/share types %r, documented %r" % ((pol[1], pol[4]), (want[1], want[4])),
+                                    case=cfgcase, expected=[want[1], list(want[4])], observed=[pol[1], list(pol[4])])
+            shutil.rmtree(factory.basedir, ignore_errors=True)
     bad = ctx.coq_check(IMPORTS, cfg_terms, tag="c26cfg")
     for ix in bad:
         ctx.mismatch("expire-options-model-vs-impl", "policy_of_config and _Client.get_anonymous_storage_server disagree",
-                     case={"config": cfg_info[ix][0]}, observed=repr(cfg_info[ix][1]), correspondence="expire-options-vs-policy-model")
+                     case={"config": cfg_info[ix][0], "tz": cfg_info[ix][1]}, observed=repr(cfg_info[ix][2]),
+                     correspondence="expire-options-vs-policy-model")
     ctx.trace(len(cfg_terms) - len(bad))
 
     # ---- crawls -------------------------------------------------------------------
     # one server per (policy configuration, crawl style)
+    state = {"serial": 0}
+
+    def one_server(rnd, gi, c, pol, tz):
+        r = ctx.rng("crawl", rnd, gi)
+        style = ["one-slice", "slices", "restart"][(gi + rnd) % 3]
+        now = NOW + r.choice([0, 12345, 5 * DAY])
+        thr = threshold(pol, now)
+        dup_round = (gi + rnd) % 4 == 0
+        factory = ServerFactory(os.path.join(base, "s%d_%d" % (rnd, gi)), c["text"])
+        clock = Clock()
+        ss = factory.make(clock)
+        specs = []
+        for kind, schema, offs, ids in gen_specs(r, ctx.n(4, 8), False):
+            state["serial"] += 1
+            serial = state["serial"]
+            sp = ShareSpec(kind, schema, [thr + o for o in offs], ids, r.choice([0, 1, 70, 140, 255]))
+            create_share(ss, clock, sp, serial)
+            specs.append(sp)
+        before = [read_leases(sp) for sp in specs]
+        for sp, b in zip(specs, before):
+            if b is None or [e for e, _ in b] != [x + D31 for x in sp.renewals] or [s for _, s in b] != sp.secret_ids:
+                ctx.mismatch("harness-share-setup", "share was not created with the intended leases", case={"kind": sp.kind, "schema": sp.schema},
+                             expected=[x + D31 for x in sp.renewals], observed=b, correspondence="lease-checker-vs-process-share-model")
+        ss, cycle, exc = run_cycle(factory, clock, ss, style, now)
+        case0 = {"config": c["text"], "now": now, "style": style, "tz": tz, "documented_policy": [pol[0], pol[1], pol[2], pol[3], list(pol[4])]}
+        if exc is not None:
+            ctx.oracle_fail("gc-lease-checker-dies-after-restart" if style == "restart" else "gc-crawl-raises",
+                            "the lease checker raised %s: %s during a %s crawl" % (type(exc).__name__, exc, style), case=case0,
+                            observed=type(exc).__name__)
+            shutil.rmtree(factory.basedir, ignore_errors=True)
+            return
+        after = [read_leases(sp) for sp in specs]
+        hist = ss.lease_checker.get_state()["history"].get(str(cycle))
+        rec = hist["space-recovered"] if hist else {}
+        judge(ctx, pol, now, specs, before, after, case0)
+        xs = T.lst(["(%s, %s, %s)" % ("Immutable" if sp.kind == "immutable" else "Mutable", t_leases(b), t_state(a))
+                    for sp, b, a in zip(specs, before, after)])
+        terms.append("cycle_agrees %s %s %s %s %s %s" % (t_policy(pol), T.Z(now), xs, T.N(rec.get("original-shares", 0)),
+                                                          T.N(rec.get("configured-shares", 0)), T.N(rec.get("actual-shares", 0))))
+        info.append((case0, [(sp.kind, sp.schema, b, a) for sp, b, a in zip(specs, before, after)], rec.get("actual-shares")))
+        if len(ctx.samples) < 3 and pol[0] and any(a is None for a in after):
+            ctx.sample({"case": case0, "shares": [{"type": sp.kind, "schema": sp.schema, "renewal_minus_threshold": [x - thr for x in sp.renewals],
+                                                  "deleted": a is None} for sp, a in zip(specs, after)]})
+        # second cycle at a later time: leases that were valid have aged
+        if rnd % 2 == 0 and gi % 5 == 0:
+            now2 = now + 41 * DAY
+            before2 = after
+            ss, cycle2, exc2 = run_cycle(factory, clock, ss, style, now2)
+            if exc2 is None:
+                live = [(sp, b) for sp, b in zip(specs, before2) if b is not None]
+                after2 = [read_leases(sp) for sp, _ in live]
+                judge(ctx, pol, now2, [sp for sp, _ in live], [b for _, b in live], after2, dict(case0, now=now2, second_cycle=True),
+                      renewals_from=[[e - D31 for e, _ in b] for _, b in live])
+                hist2 = ss.lease_checker.get_state()["history"].get(str(cycle2))
+                rec2 = hist2["space-recovered"] if hist2 else {}
+                xs2 = T.lst(["(%s, %s, %s)" % ("Immutable" if sp.kind == "immutable" else "Mutable", t_leases(b), t_state(a))
+                             for (sp, b), a in zip(live, after2)])
+                terms.append("cycle_agrees %s %s %s %s %s %s" % (t_policy(pol), T.Z(now2), xs2, T.N(rec2.get("original-shares", 0)),
+                                                                  T.N(rec2.get("configured-shares", 0)), T.N(rec2.get("actual-shares", 0))))
+                info.append((dict(case0, now=now2), [(sp.kind, sp.schema, b, a) for (sp, b), a in zip(live, after2)], rec2.get("actual-shares")))
+            else:
+                ctx.oracle_fail("gc-crawl-raises", "second cycle raised %s: %s" % (type(exc2).__name__, exc2), case=case0, observed=type(exc2).__name__)
+        shutil.rmtree(factory.basedir, ignore_errors=True)
+
+        # repeated cancel secrets: one share per server (a raise ends the crawl)
+        if dup_round:
+            fixed = [(["immutable", "mutable"][(gi // 4) % 2], 2, [-DAY, DAY], [0, 0]),
+                     (["mutable", "immutable"][(gi // 4) % 2], [2, 1][(gi // 8) % 2], [-DAY, -40 * DAY, 20 * DAY], [0, 0, 1])]
+            for kind, schema, offs, ids in fixed + gen_specs(ctx.rng("dup", rnd, gi), 2, True):
+                if len(set(ids)) == len(ids):
+                    return
+                state["serial"] += 1
+                serial = state["serial"]
+                dfac = ServerFactory(os.path.join(base, "d%d" % serial), c["text"])
+                dclock = Clock()
+                dss = dfac.make(dclock)
+                sp = ShareSpec(kind, schema, [thr + o for o in offs], ids, 3)
+                create_share(dss, dclock, sp, serial)
+                b = read_leases(sp)
+                dss, _, dexc = run_cycle(dfac, dclock, dss, "one-slice", now)
+                a = read_leases(sp)
+                dcase = dict(case0, style="one-slice", duplicate_cancel_secret=True)
+                if dexc is None:
+                    judge(ctx, pol, now, [sp], [b], [a], dcase)
+                    terms.append("negb (sr_raised (process_share %s %s %s %s)) && file_state_eqb (sr_state (process_share %s %s %s %s)) %s" % (
+                        t_policy(pol), T.Z(now), "Immutable" if kind == "immutable" else "Mutable", t_leases(b),
+                        t_policy(pol), T.Z(now), "Immutable" if kind == "immutable" else "Mutable", t_leases(b), t_state(a)))
+                else:
+                    ctx.case(("dup-raise", c["text"], kind, schema, tuple(offs), tuple(ids)), kind="duplicate-secret-raises")
+                    ctx.oracle_fail("gc-duplicate-cancel-secret-crashes-crawler",
+                                    "two expired leases with one cancel secret: the lease checker raised %s" % type(dexc).__name__,
+                                    case=dict(dcase, kind=kind, schema=schema, offsets=offs, secret_ids=ids), observed=type(dexc).__name__)
+                    terms.append("raise_agrees %s %s %s %s %s" % (t_policy(pol), T.Z(now), "Immutable" if kind == "immutable" else "Mutable",
+                                                                  t_leases(b), t_state(a)))
+                info.append((dcase, [(kind, schema, b, a)], None))
+                shutil.rmtree(dfac.basedir, ignore_errors=True)
+
+
     rounds = ctx.n(1, 6)
-    serial = 0
+    ncut = 0
     for rnd in range(rounds):
         for gi, (c, pol) in enumerate(good):
-            r = ctx.rng("crawl", rnd, gi)
-            style = ["one-slice", "slices", "restart"][(gi + rnd) % 3]
-            now = NOW + r.choice([0, 12345, 5 * DAY])
-            thr = threshold(pol, now)
-            dup_round = (gi + rnd) % 4 == 0
-            factory = ServerFactory(os.path.join(base, "s%d_%d" % (rnd, gi)), c["text"])
-            clock = Clock()
-            ss = factory.make(clock)
-            specs = []
-            for kind, schema, offs, ids in gen_specs(r, ctx.n(4, 8), False):
-                serial += 1
-                sp = ShareSpec(kind, schema, [thr + o for o in offs], ids, r.choice([0, 1, 70, 140, 255]))
-                create_share(ss, clock, sp, serial)
-                specs.append(sp)
-            before = [read_leases(sp) for sp in specs]
-            for sp, b in zip(specs, before):
-                if b is None or [e for e, _ in b] != [x + D31 for x in sp.renewals] or [s for _, s in b] != sp.secret_ids:
-                    ctx.mismatch("harness-share-setup", "share was not created with the intended leases", case={"kind": sp.kind, "schema": sp.schema},
-                                 expected=[x + D31 for x in sp.renewals], observed=b, correspondence="lease-checker-vs-process-share-model")
-            ss, cycle, exc = run_cycle(factory, clock, ss, style, now)
-            case0 = {"config": c["text"], "now": now, "style": style}
-            if exc is not None:
-                ctx.oracle_fail("gc-lease-checker-dies-after-restart" if style == "restart" else "gc-crawl-raises",
-                                "the lease checker raised %s: %s during a %s crawl" % (type(exc).__name__, exc, style), case=case0,
-                                observed=type(exc).__name__)
-                shutil.rmtree(factory.basedir, ignore_errors=True)
-                continue
-            after = [read_leases(sp) for sp in specs]
-            hist = ss.lease_checker.get_state()["history"].get(str(cycle))
-            rec = hist["space-recovered"] if hist else {}
-            judge(ctx, pol, now, specs, before, after, case0)
-            xs = T.lst(["(%s, %s, %s)" % ("Immutable" if sp.kind == "immutable" else "Mutable", t_leases(b), t_state(a))
-                        for sp, b, a in zip(specs, before, after)])
-            terms.append("cycle_agrees %s %s %s %s %s %s" % (t_policy(pol), T.Z(now), xs, T.N(rec.get("original-shares", 0)),
-                                                              T.N(rec.get("configured-shares", 0)), T.N(rec.get("actual-shares", 0))))
-            info.append((case0, [(sp.kind, sp.schema, b, a) for sp, b, a in zip(specs, before, after)], rec.get("actual-shares")))
-            if len(ctx.samples) < 3 and pol[0] and any(a is None for a in after):
-                ctx.sample({"case": case0, "shares": [{"type": sp.kind, "schema": sp.schema, "renewal_minus_threshold": [x - thr for x in sp.renewals],
-                                                      "deleted": a is None} for sp, a in zip(specs, after)]})
-            # second cycle at a later time: leases that were valid have aged
-            if rnd % 2 == 0 and gi % 5 == 0:
-                now2 = now + 41 * DAY
-                before2 = after
-                ss, cycle2, exc2 = run_cycle(factory, clock, ss, style, now2)
-                if exc2 is None:
-                    live = [(sp, b) for sp, b in zip(specs, before2) if b is not None]
-                    after2 = [read_leases(sp) for sp, _ in live]
-                    judge(ctx, pol, now2, [sp for sp, _ in live], [b for _, b in live], after2, dict(case0, now=now2, second_cycle=True),
-                          renewals_from=[[e - D31 for e, _ in b] for _, b in live])
-                    hist2 = ss.lease_checker.get_state()["history"].get(str(cycle2))
-                    rec2 = hist2["space-recovered"] if hist2 else {}
-                    xs2 = T.lst(["(%s, %s, %s)" % ("Immutable" if sp.kind == "immutable" else "Mutable", t_leases(b), t_state(a))
-                                 for (sp, b), a in zip(live, after2)])
-                    terms.append("cycle_agrees %s %s %s %s %s %s" % (t_policy(pol), T.Z(now2), xs2, T.N(rec2.get("original-shares", 0)),
-                                                                      T.N(rec2.get("configured-shares", 0)), T.N(rec2.get("actual-shares", 0))))
-                    info.append((dict(case0, now=now2), [(sp.kind, sp.schema, b, a) for (sp, b), a in zip(live, after2)], rec2.get("actual-shares")))
-                else:
-                    ctx.oracle_fail("gc-crawl-raises", "second cycle raised %s: %s" % (type(exc2).__name__, exc2), case=case0, observed=type(exc2).__name__)
-            shutil.rmtree(factory.basedir, ignore_errors=True)
-
-            # repeated cancel secrets: one share per server (a raise ends the crawl)
-            if dup_round:
-                fixed = [(["immutable", "mutable"][(gi // 4) % 2], 2, [-DAY, DAY], [0, 0]),
-                         (["mutable", "immutable"][(gi // 4) % 2], [2, 1][(gi // 8) % 2], [-DAY, -40 * DAY, 20 * DAY], [0, 0, 1])]
-                for kind, schema, offs, ids in fixed + gen_specs(ctx.rng("dup", rnd, gi), 2, True):
-                    if len(set(ids)) == len(ids):
-                        continue
-                    serial += 1
-                    dfac = ServerFactory(os.path.join(base, "d%d" % serial), c["text"])
-                    dclock = Clock()
-                    dss = dfac.make(dclock)
-                    sp = ShareSpec(kind, schema, [thr + o for o in offs], ids, 3)
-                    create_share(dss, dclock, sp, serial)
-                    b = read_leases(sp)
-                    dss, _, dexc = run_cycle(dfac, dclock, dss, "one-slice", now)
-                    a = read_leases(sp)
-                    dcase = dict(case0, style="one-slice", duplicate_cancel_secret=True)
-                    if dexc is None:
-                        judge(ctx, pol, now, [sp], [b], [a], dcase)
-                        terms.append("negb (sr_raised (process_share %s %s %s %s)) && file_state_eqb (sr_state (process_share %s %s %s %s)) %s" % (
-                            t_policy(pol), T.Z(now), "Immutable" if kind == "immutable" else "Mutable", t_leases(b),
-                            t_policy(pol), T.Z(now), "Immutable" if kind == "immutable" else "Mutable", t_leases(b), t_state(a)))
-                    else:
-                        ctx.case(("dup-raise", c["text"], kind, schema, tuple(offs), tuple(ids)), kind="duplicate-secret-raises")
-                        ctx.oracle_fail("gc-duplicate-cancel-secret-crashes-crawler",
-                                        "two expired leases with one cancel secret: the lease checker raised %s" % type(dexc).__name__,
-                                        case=dict(dcase, kind=kind, schema=schema, offsets=offs, secret_ids=ids), observed=type(dexc).__name__)
-                        terms.append("raise_agrees %s %s %s %s %s" % (t_policy(pol), T.Z(now), "Immutable" if kind == "immutable" else "Mutable",
-                                                                      t_leases(b), t_state(a)))
-                    info.append((dcase, [(kind, schema, b, a)], None))
-                    shutil.rmtree(dfac.basedir, ignore_errors=True)
-
+            if pol[1] == "cutoff-date":
+                tz = CRAWL_ZONES[(ncut + rnd) % len(CRAWL_ZONES)]
+                ncut += 1
+            else:
+                tz = [None, "PST8", None, "CET-1"][(gi + rnd) % 4]
+            with Zone(tz):
+                one_server(rnd, gi, c, pol, tz)
     bad = ctx.coq_check(IMPORTS, terms, tag="c26")
     for ix in bad:
         case0, shares, actual = info[ix]
@@ -545,16 +627,30 @@ def judge(ctx, pol, now, specs, before, after, case0, renewals_from=None):
 def replay(ctx, rec):
     from twisted.internet.task import Clock
     case = rec["case"]
+    tz = case.get("tz")
+    with Zone(tz):
+        return _replay(ctx, case, tz, Clock)
+
+
+def _replay(ctx, case, tz, Clock):
     base = env.subdir("c26-replay")
     factory = ServerFactory(os.path.join(base, "r"), case["config"])
     clock = Clock()
-    ss = factory.make(clock)
-    pol = observed_policy(ss)
-    now = case["now"]
+    try:
+        ss = factory.make(clock)
+        observed = observed_policy(ss)
+    except Exception as e:
+        return {"tz": tz, "configuration_refused": type(e).__name__}
+    doc = case.get("documented_policy")
+    pol = (doc[0], doc[1], doc[2], doc[3], tuple(doc[4])) if doc else observed
+    if observed != pol and observed[1] == "cutoff-date" and observed[3] != pol[3]:
+        ctx.oracle_fail("gc-cutoff-date-not-utc-midnight", "under TZ=%s the lease checker uses cutoff %r, midnight UTC of that day is %r" % (tz, observed[3], pol[3]),
+                        case=case, expected=pol[3], observed=observed[3])
+    now = case.get("now", NOW)
     thr = threshold(pol, now)
     sh = case.get("share")
     if not sh:
-        return {"note": "no share in this record", "policy": pol}
+        return {"tz": tz, "note": "no share in this record", "policy_in_use": observed, "documented_policy": pol}
     sp = ShareSpec(sh["type"], sh["schema"], [thr + o for o in sh["renewal_minus_threshold"]],
                    [0 if s is None else s for s in sh["cancel_secret_ids"]], 3)
     create_share(ss, clock, sp, 1)
@@ -565,5 +661,6 @@ def replay(ctx, rec):
     if exc is not None:
         ctx.oracle_fail("gc-crawl-raises", "lease checker raised %s: %s" % (type(exc).__name__, exc), case=case)
     else:
-        judge(ctx, pol, now, [sp], [b], [a], {"config": case["config"], "now": now, "style": style})
-    return {"policy": pol, "leases_before": b, "leases_after": a, "raised": None if exc is None else type(exc).__name__}
+        judge(ctx, pol, now, [sp], [b], [a], {"config": case["config"], "now": now, "style": style, "tz": tz})
+    return {"tz": tz, "policy_in_use": observed, "documented_policy": pol, "leases_before": b, "leases_after": a,
+            "raised": None if exc is None else type(exc).__name__}
